@@ -76,7 +76,9 @@ AttemptHi(s, t, tr) ==
 MinFailsIn(sv) == CHOOSE n \in {sv[s].fails : s \in DOMAIN sv} : \A s \in DOMAIN sv : sv[s].fails >= n
 BestIn(sv) == {s \in DOMAIN sv : sv[s].fails = MinFailsIn(sv)}
 FirstBestIn(sv) == CHOOSE s \in BestIn(sv) : \A s2 \in BestIn(sv) : sv[s].idx <= sv[s2].idx   \* configuration order
-FreshChoiceOkIn(sv, s) == IF cfg.rotate = 1 THEN s \in BestIn(sv) ELSE s = FirstBestIn(sv)
+(* equal positions only occur while a list edit is in progress (a server about to be removed keeps its old position): either is a legal choice *)
+FreshChoiceOkIn(sv, s) == /\ s \in BestIn(sv)
+                          /\ (cfg.rotate = 1 \/ \A s2 \in BestIn(sv) : sv[s].idx <= sv[s2].idx)
 Best == BestIn(srv)
 FirstBest == FirstBestIn(srv)
 FreshChoiceOk(s) == FreshChoiceOkIn(srv, s)
@@ -94,6 +96,12 @@ Requeued(rec, inc, err) ==
      THEN [rec EXCEPT !.st = "tosend", !.try = tr, !.err = e, !.reqsrv = 0]
      ELSE [rec EXCEPT !.st = "ending", !.try = tr, !.err = e,
                       !.endst = IF e = "" THEN "ETIMEOUT" ELSE e, !.endrc = -1]
+
+(* the same with an explicit budget (used while the server list is being edited) *)
+RequeuedN(rec, maxtries) ==
+  LET tr == rec.try + 1 IN
+  IF tr < maxtries /\ ~rec.noretry THEN [rec EXCEPT !.st = "tosend", !.try = tr, !.reqsrv = 0]
+  ELSE [rec EXCEPT !.st = "ending", !.try = tr, !.endst = IF rec.err = "" THEN "ETIMEOUT" ELSE rec.err, !.endrc = -1]
 
 FailServerIn(sv, s) == [sv EXCEPT ![s].fails = @ + 1, ![s].nextRetry = now + cfg.retrydelay]
 FailServer(s) == FailServerIn(srv, s)
